@@ -66,8 +66,19 @@ func valueCellOf(v ssa.Value) (base ssa.Value, ok bool) {
 func runC14(r *Report) {
 	p := r.P
 	const rg = "nil-guards"
-	r.Rule(rg, 2, "in upsertInternal the nil tests of key and value return KeyNil / ValueNil and no mutation is reachable from their nil edges")
-	if fn := r.NeedFunc(rg, "memstore.upsertInternal"); fn != nil {
+	r.Rule(rg, 4, "in every mutating entry point of the memstore (upsertInternal, deleteInternal, Tombstone) the nil test of the key (and of the value, where there is one) returns KeyNil / ValueNil and neither a mutation nor a lookup is reachable from its nil edge: a nil key compares equal to the empty key, so an unchecked Delete(nil) acts on the empty key's entry and Tombstone(nil) stores an entry under a nil key")
+	for _, spec := range []struct {
+		fn     string
+		params []string
+	}{
+		{"memstore.upsertInternal", []string{"key", "value"}},
+		{"memstore.deleteInternal", []string{"key"}},
+		{"memstore.MemStore.Tombstone", []string{"key"}},
+	} {
+		fn := r.NeedFunc(rg, spec.fn)
+		if fn == nil {
+			continue
+		}
 		var muts []Site
 		eachInstr(fn, func(s Site) {
 			switch x := s.Instr.(type) {
@@ -79,13 +90,13 @@ func runC14(r *Report) {
 					muts = append(muts, s)
 				}
 			case *ssa.Call:
-				if strings.HasSuffix(CalleeKey(x), "MapI.Insert") {
+				if strings.HasSuffix(CalleeKey(x), "MapI.Insert") || strings.HasSuffix(CalleeKey(x), "MapI.Get") {
 					muts = append(muts, s)
 				}
 			}
 		})
-		for _, pname := range []string{"key", "value"} {
-			key := rg + "/memstore.upsertInternal/" + pname
+		for _, pname := range spec.params {
+			key := rg + "/" + spec.fn + "/" + pname
 			var nonNil []Edge
 			var nilEdges []Edge
 			for _, b := range liveBlocks(fn) {
@@ -97,7 +108,7 @@ func runC14(r *Report) {
 				}
 			}
 			if len(nonNil) == 0 {
-				r.Bad(rg, key, fn.Pos(), "a nil "+pname+" is not rejected before the memstore is mutated")
+				r.Bad(rg, key, fn.Pos(), "a nil "+pname+" is not rejected before the memstore is consulted or mutated")
 				continue
 			}
 			removed := map[Edge]bool{}
@@ -117,9 +128,9 @@ func runC14(r *Report) {
 				}
 			}
 			if bad {
-				r.Bad(rg, key, fn.Pos(), "a mutation is reachable with a nil "+pname+" or the rejection does not return "+want)
+				r.Bad(rg, key, fn.Pos(), "a lookup or mutation is reachable with a nil "+pname+" or the rejection does not return "+want)
 			} else {
-				r.OK(rg, key, fn.Pos(), "nil "+pname+" → "+want+" before any mutation")
+				r.OK(rg, key, fn.Pos(), "nil "+pname+" → "+want+" before any lookup or mutation")
 			}
 		}
 	}
@@ -362,6 +373,7 @@ func runC14(r *Report) {
 	ruleTombstoneSemantics(r)
 	ruleValueBuffersImmutable(r)
 	ruleSentinelProducible(r, "memstore", "simpledb")
+	ruleCreateTruncates(r)
 	for _, k := range []string{"memstore.MemStore.Get", "memstore.MemStore.Contains", "memstore.MemStore.IsTombstoned", "memstore.deleteInternal", "memstore.upsertInternal", "memstore.MemStore.Tombstone"} {
 		if fn := p.Func(k); fn != nil {
 			ruleMemLookup(r, fn)
